@@ -142,7 +142,54 @@ const CHAR_POOL: &[char] = &[
 ];
 
 /// a radix literal with up to ~130 significant bits, often shaped like a rounding tie
+/// A radix literal built around the rounding position of a double: 53 kept bits (the last one
+/// decides even/odd), the half bit, and a tail that is all zeros, a single late one, a one
+/// followed by zero digits, or random - every way the dropped part can or cannot break a tie.
+pub fn rand_rounding_radix(rng: &mut Rng) -> String {
+    let (prefix, width) = *rng.pick(&[("0x", 4usize), ("0X", 4), ("0o", 3), ("0b", 1), ("0B", 1)]);
+    let mut bits: Vec<u8> = vec![1];
+    for _ in 0..52 {
+        bits.push(rng.below(2) as u8);
+    }
+    if rng.chance(1, 2) {
+        let n = bits.len();
+        bits[n - 1] = rng.below(2) as u8;
+        for b in bits[1..n - 1].iter_mut() {
+            if rng.chance(2, 3) { *b = 0; }
+        }
+    }
+    bits.push(if rng.chance(3, 4) { 1 } else { 0 });          // the half bit
+    let tail = rng.below(90);
+    let mut t = vec![0u8; tail];
+    match rng.below(5) {
+        0 => {}
+        1 if tail > 0 => t[rng.below(tail)] = 1,
+        2 if tail > 0 => t[0] = 1,
+        3 if tail > 0 => {
+            let k = rng.below(tail);
+            t[k] = 1;                                            // non-zero, then zero digits to the end
+        }
+        _ => {
+            for b in t.iter_mut() { *b = rng.below(2) as u8; }
+            if tail > width { for b in t[tail - width..].iter_mut() { *b = 0; } }
+        }
+    }
+    bits.extend(t);
+    while bits.len() % width != 0 {
+        bits.insert(0, 0);
+    }
+    let mut out = String::from(prefix);
+    for d in bits.chunks(width) {
+        let v = d.iter().fold(0u32, |a, b| a * 2 + *b as u32);
+        out.push(std::char::from_digit(v, 16).unwrap());
+    }
+    out
+}
+
 pub fn rand_radix_literal(rng: &mut Rng) -> String {
+    if rng.chance(1, 3) {
+        return rand_rounding_radix(rng);
+    }
     let (prefix, radix) = *rng.pick(&[("0x", 16u32), ("0X", 16), ("0o", 8), ("0O", 8), ("0b", 2), ("0B", 2)]);
     let digit = |rng: &mut Rng, radix: u32| std::char::from_digit(rng.below(radix as usize) as u32, radix).unwrap();
     let mut t = String::from(prefix);
